@@ -221,6 +221,11 @@ func (p *Parser) MergeFile(path string) error {
 		return err
 	}
 
+	// Parents are not loaded here, but $parent is not data either
+	for _, doc := range f.docs {
+		doc.PopMapValue("$parent")
+	}
+
 	return p.mergeFile(f)
 }
 
